@@ -484,7 +484,20 @@ fn gen_call(g: &mut Gen, rng: &mut impl rand::RngCore, allow_proofs: bool, count
                     }
                     match rng.gen_range(0..3) {
                         0 => Call::VerifyRln(req),
-                        1 => Call::VerifyRoots(req, if rng.gen_bool(0.5) { m[128..160].to_vec() } else { rand_bytes(rng, 64) }),
+                        1 => {
+                            // root sets: empty (the root check is skipped by the Rust API), the carried root, a window
+                            // containing it, only other roots, a buffer that is not a whole number of roots
+                            let carried = m[128..160].to_vec();
+                            let roots = match rng.gen_range(0..7) {
+                                0 | 1 => vec![],
+                                2 => carried,
+                                3 => [rand_bytes(rng, 32), carried, rand_bytes(rng, 32)].concat(),
+                                4 => rand_bytes(rng, 64),
+                                5 => [carried, rand_bytes(rng, 7)].concat(),
+                                _ => rand_bytes(rng, 31),
+                            };
+                            Call::VerifyRoots(req, roots)
+                        }
                         _ => Call::Verify(if rng.gen_bool(0.2) { m[..rng.gen_range(0..m.len())].to_vec() } else { m }),
                     }
                 }
@@ -588,11 +601,35 @@ pub fn run(rep: &mut Rep, args: &[String]) {
             Call::SetLeaf(3, rc.clone()),
         ];
         script.reverse();
-        for k in 0..ncalls + script.len() {
+        let mut verify_script_done = false;
+        for k in 0..ncalls + script.len() + 15 {
             let count_hint = pair.rust.leaves_set();
             if *depth == 20 && proofs_left > 0 {
                 let req = enc_prove_request(&secret, 3, &Fr::from(10u64), &Fr::from(1u64), &Fr::from(77u64), b"w");
                 g.witness = catch(|| pair.rust.get_serialized_rln_witness(Cursor::new(req)).ok()).ok().flatten();
+            }
+            // as soon as a message exists: every verification export on it before and after the tree has moved on,
+            // with every kind of root set (scripted once per sequence, the generated calls repeat it at random)
+            if !verify_script_done && !g.messages.is_empty() && script.is_empty() {
+                verify_script_done = true;
+                let (m, sg) = g.messages[0].clone();
+                let req = enc_verify_request(&m, &sg);
+                let carried = m[128..160].to_vec();
+                let mut vs: Vec<Call> = vec![];
+                for round in 0..2 {
+                    vs.push(Call::VerifyRln(req.clone()));
+                    vs.push(Call::VerifyRoots(req.clone(), vec![]));
+                    vs.push(Call::VerifyRoots(req.clone(), carried.clone()));
+                    vs.push(Call::VerifyRoots(req.clone(), [rand_bytes(&mut rng, 32), carried.clone()].concat()));
+                    vs.push(Call::VerifyRoots(req.clone(), rand_bytes(&mut rng, 32)));
+                    vs.push(Call::VerifyRoots(req.clone(), rand_bytes(&mut rng, 31)));
+                    vs.push(Call::Verify(m.clone()));
+                    if round == 0 {
+                        vs.push(Call::SetNextLeaf(enc_fr(&rand_fr(&mut rng))));
+                    }
+                }
+                vs.reverse();
+                script = vs;
             }
             let call = match script.pop() {
                 Some(c) => c,
